@@ -37,6 +37,7 @@ assert ascii('hello world') == "'hello world'"
 assert ascii('안녕 세상') == "'\\uc548\\ub155 \\uc138\\uc0c1'"
 assert ascii(chr(0x10001)) == "'\\U00010001'"
 assert ascii('안녕 gpython') == "'\\uc548\\ub155 gpython'"
+assert ascii('\xe9\xff\x7f') == "'\\xe9\\xff\\x7f'"
 
 doc="bin"
 assert bin(False) == '0b0'
